@@ -5,6 +5,8 @@ CONSTANTS
   NDiscard = 1
   Crash = FALSE
   ReporterBug = "no_recycle"
+  Slots = 0
+  ReporterOnPool = FALSE
 SPECIFICATION Spec
 PROPERTY Termination
 CHECK_DEADLOCK FALSE
